@@ -391,7 +391,9 @@ def one_call(case, a, b, bases):
         return '(check_call NF %s %s)' % (pre_call, expected), info
     n = len(ra); m = len(ra[0]) if ra else 0
     nat = lambda k: '%d%%nat' % k
-    if fn == 'solve':
+    if fn == 'solve' and b.ndim == 2:
+        call = '(CSolve2 NF %s %s %s %s)' % (nat(n), nat(len(rb[0]) if rb else 0), A, B)
+    elif fn == 'solve':
         call = '(CSolve NF %s %s %s)' % (nat(n), A, clist([celt(r_[0]) for r_ in rb]))
     elif fn == 'inv': call = '(CInv NF %s %s)' % (nat(n), A)
     elif fn == 'det': call = '(CDet NF %s %s)' % (nat(n), A)
@@ -618,7 +620,10 @@ def gen_case(rng, ctx, malformed=False):
         if kind == 'int' and style == 'tiny': style = case['style'] = 'dom'; vals = gen_matrix_vals(rng, n, 'dom')
         if kind == 'int': vals = [[float(round(v)) for v in r] for r in vals]
         case['a'] = [[elem_with_value(rng, kind, pool, v) for v in r] for r in vals]
-        if fn == 'solve':
+        if fn == 'solve' and rng.random() < 0.4:        # 2-D right-hand side: n x m
+            m = rng.randint(1, 3)
+            case['b'] = [[gen_rhs(rng, kind, pool) for _ in range(m)] for _ in range(n)]
+        elif fn == 'solve':
             case['b'] = [gen_rhs(rng, kind, pool) for _ in range(n)]
         elif fn == 'invab':
             m = rng.randint(1, 3)
@@ -984,7 +989,10 @@ def gen_oracle_case(rng):
         return gen_rhs(rng, base, pool)
     case = {'ctx': 77, 'fn': fn, 'kind': kind, 'n': n, 'pool': pool, 'b': None,
             'a': [[el(v) for v in r] for r in vals]}
-    if fn == 'solve': case['b'] = [rhs() for _ in range(n)]
+    if fn == 'solve' and rng.random() < 0.4:
+        m = rng.randint(1, 3)
+        case['b'] = [[rhs() for _ in range(m)] for _ in range(n)]
+    elif fn == 'solve': case['b'] = [rhs() for _ in range(n)]
     if fn in ('invab', 'matmul'):
         m = rng.randint(1, 3)
         case['b'] = [[rhs() for _ in range(m)] for _ in range(n)]
@@ -1161,8 +1169,11 @@ def _oracle_once(case, pool, a, b, bases, first):
             return sv, sc
         return f
     if why is None and fn in ('solve', 'invab'):
-        X = [[e] for e in r] if fn == 'solve' else [list(row) for row in r]
-        Bm = [[e] for e in b] if fn == 'solve' else [list(row) for row in b]
+        one_d = fn == 'solve' and b.ndim == 1
+        if not one_d and _shape(r) != _shape(b):
+            return '%s result has shape %r, b has shape %r' % (fn, _shape(r), _shape(b))
+        X = [[e] for e in r] if one_d else [list(row) for row in r]
+        Bm = [[e] for e in b] if one_d else [list(row) for row in b]
         why = _residual_fail(_sumprod(A, X), Bm, scale_of(A, X), pool, tol, 'a.x - b')
     elif why is None and fn == 'inv':
         n = len(A); X = [list(row) for row in r]
